@@ -76,6 +76,8 @@ func C11(c *Ctx) {
 	c.R.Rule("C11-R7", "E3", "the call returns only after the watcher has ended", 1)
 	c.R.Rule("C11-R8", "E5", "hosts hand on the context they are given", 3)
 	c11HostContexts(c)
+	c.R.Rule("C11-R11", "E7", "mcrew stores the routing of a stopped action: the store's write path does not consult the (by then ended) context", 1)
+	c11StoreIgnoresCtx(c, "C11-R11")
 	c.shareRule("C04", "C04-R11", "C11-R10", "a timeout is routed like any other action error: after a failed action only the spec's routing settings choose the exit of Step")
 	c.R.Rule("C11-R9", "E3", "an execution whose context has ended reports the timeout, whatever the runtime returned", 1)
 	exec := c.fn("interpreters/ecmascript", "Interpreter", "Exec")
